@@ -4,9 +4,25 @@ def run(ctx):
     st = [dict(variant="asan", name="c18", sources=["checks/c18_chunking.c", "harness/mx_wraps.c"], wraps=WRAPS, libs=["-lcrypto"],
                shards=vflib.NCPU, timeout=7200 if ctx.thorough else 1500)]
     rule = ("Each case = one endpoint (client or server) re-run alone, in a child forked from the same parent snapshot with pinned entropy and virtual clock, against the recorded "
-            "peer byte stream of a scenario (full / resumed / ticket / client-auth / failing handshakes, then 3 application payloads each way and closure) under one partition of "
-            "the input into receive calls (fixed sizes 1..9,13,16,64,511,1000, record-aligned, 7 record-straddling cuts, coalesced via GetReadbufOfSize, seeded random) or one "
-            "partial-send pattern; bytes are never delivered earlier relative to the endpoint's own output than in the recording. The trace (events, delivered plaintext, emitted "
-            "bytes) must equal the flight-at-a-time reference. distinct_nontrivial = distinct (scenario, role, chunking, partial-send) executed.")
+            "peer byte stream of a scenario (full / resumed / ticket / client-auth / failing handshakes, TLS 1.3 with HelloRetryRequest and with accepted 0-RTT data, then 3 "
+            "application payloads each way and closure) under one partition of the input into receive calls (fixed sizes 1..9,13,16,64,511,1000, record-aligned, 7 "
+            "record-straddling cuts, coalesced via GetReadbufOfSize, seeded random) or one partial-send pattern; bytes are never delivered earlier relative to the endpoint's own "
+            "output than in the recording. Augmented scenarios: while recording, the harness plays a conforming non-MatrixSSL peer / middlebox and splices into the stream the "
+            "records MatrixSSL never emits itself - TLS 1.3 compatibility change_cipher_spec records (1 or 2) at every record boundary between the first ClientHello / "
+            "ServerHello / HelloRetryRequest and the sender's Finished (all at once, at the typical positions, and one position at a time, both directions), [CCS x n][alert] in "
+            "place of the sender's protected flight (plaintext or sealed under its handshake traffic key; warning close_notify, fatal handshake_failure), and for TLS 1.1/1.2 an "
+            "authentic HelloRequest (server) / renegotiation ClientHello (client) sealed with the sender's current write state before / between / after its application records. "
+            "The recording and every alone re-run see the same augmented stream; on it the same partitions apply plus a cut at every offset -2..+8 around each spliced group and "
+            "'everything up to k bytes behind the group in one call, then the next record in 1- or 3-byte pieces'. The trace (events incl. the level/description of every alert "
+            "handed to the application, delivered plaintext, emitted bytes) must equal the flight-at-a-time reference. distinct_nontrivial = distinct (scenario, role, chunking, "
+            "partial-send) executed.")
     return vflib.std_run(ctx, st, "exploration", rule,
-        ["process-global state is equalised by forking every run from one parent snapshot", "DTLS is out of scope of this property (datagram boundaries are semantic)"], min_nontrivial=300)
+        ["process-global state is equalised by forking every run from one parent snapshot",
+         "DTLS is out of scope of this property (datagram boundaries are semantic)",
+         "the application stops reading once the session failed (input behind a fatal error is C15's subject)",
+         "which call reports HANDSHAKE_COMPLETE may depend on coalescing (APP_DATA implies it); while the start of a further record is buffered the report is deferred to the call "
+         "that completes that record - only a completion that is never reported once the endpoint is idle with an empty input buffer is a violation",
+         "the application of an endpoint that receives spliced HelloRequest / ClientHello records writes when the peer's data has been delivered, not on learning of the "
+         "completion: otherwise the order of its own records and the library's no_renegotiation alerts would depend on which call reports the completion",
+         "a spliced stream whose flight-at-a-time recording does not establish is still compared across partitions; it is inconclusive only if no partition disagrees"],
+        min_nontrivial=300)
